@@ -71,6 +71,36 @@ var pinnedRequired = map[string][]string{
 	"ListenerHttpCerts":    {"Cert", "Key"},
 }
 
+// pinnedNames is the file format as shipped: Go struct -> Go field -> name of the setting
+// in a profile file.  The generator assigns values to Go fields (what the server reads) and
+// the printer writes each field under this name, so that a tag that sends a setting into
+// another field is seen as a round-trip difference.  Fields that are not listed (added
+// later) are written under their current tag name.
+var pinnedNames = map[string]map[string]string{
+	"HavocConfig":           {"Server": "Teamserver", "Operators": "Operators", "Listener": "Listeners", "Demon": "Demon", "Service": "Service", "WebHook": "WebHook"},
+	"ServerProfile":         {"Host": "Host", "Port": "Port", "Build": "Build"},
+	"BuildConfig":           {"Compiler64": "Compiler64", "Compiler86": "Compiler86", "Nasm": "Nasm"},
+	"OperatorsBlock":        {"Users": "user"},
+	"UsersBlock":            {"Name": "Name", "Password": "Password"},
+	"Listeners":             {"ListenerHTTP": "Http", "ListenerSMB": "Smb", "ListenerExternal": "External"},
+	"ListenerHTTP":          {"Name": "Name", "KillDate": "KillDate", "WorkingHours": "WorkingHours", "Hosts": "Hosts", "HostBind": "HostBind", "HostRotation": "HostRotation", "PortBind": "PortBind", "PortConn": "PortConn", "Methode": "Method", "UserAgent": "UserAgent", "Headers": "Headers", "Uris": "Uris", "Secure": "Secure", "Cert": "Cert", "Response": "Response", "Proxy": "Proxy"},
+	"ListenerHttpCerts":     {"Cert": "Cert", "Key": "Key"},
+	"ListenerHttpResponse":  {"Headers": "Headers"},
+	"ListenerHttpProxy":     {"Host": "Host", "Port": "Port", "User": "Username", "Pass": "Password"},
+	"ListenerSMB":           {"Name": "Name", "PipeName": "PipeName", "KillDate": "KillDate", "WorkingHours": "WorkingHours"},
+	"ListenerExternal":      {"Name": "Name", "Endpoint": "Endpoint"},
+	"Demon":                 {"Sleep": "Sleep", "Jitter": "Jitter", "IndirectSyscall": "IndirectSyscall", "StackDuplication": "StackDuplication", "SleepTechnique": "SleepTechnique", "ProxyLoading": "ProxyLoading", "AmsiEtwPatching": "AmsiEtwPatching", "ProcessInjection": "Injection", "DotNetNamePipe": "DotNetNamePipe", "Binary": "Binary", "TrustXForwardedFor": "TrustXForwardedFor"},
+	"ProcessInjectionBlock": {"Spawn64": "Spawn64", "Spawn32": "Spawn32"},
+	"Binary":                {"Header": "Header", "ReplaceStringsX64": "ReplaceStrings-x64", "ReplaceStringsX86": "ReplaceStrings-x86"},
+	"HeaderBlock":           {"MagicMzX64": "MagicMz-x64", "MagicMzX86": "MagicMz-x86", "CompileTime": "CompileTime", "ImageSizeX64": "ImageSize-x64", "ImageSizeX86": "ImageSize-x86"},
+	"ServiceConfig":         {"Endpoint": "Endpoint", "Password": "Password"},
+	"WebHookConfig":         {"Discord": "Discord"},
+	"WebHookDiscordConfig":  {"WebHook": "Url", "AvatarUrl": "AvatarUrl", "UserName": "User"},
+}
+
+// pinnedLabels: Go fields that are block labels in the shipped format.
+var pinnedLabels = map[string][]string{"UsersBlock": {"Name"}}
+
 func (a *attrSchema) required() bool { return !a.optional || a.pinned }
 
 type blockSchema struct {
@@ -131,6 +161,14 @@ func schemaOf(t reflect.Type) *structSchema {
 		name, kind := tag, "attr"
 		if c := strings.Index(tag, ","); c >= 0 {
 			name, kind = tag[:c], tag[c+1:]
+		}
+		if pn, ok := pinnedNames[t.Name()][f.Name]; ok {
+			name = pn
+		}
+		for _, l := range pinnedLabels[t.Name()] {
+			if l == f.Name {
+				kind = "label" // written as a block label in the shipped format
+			}
 		}
 		switch kind {
 		case "attr", "optional":
